@@ -888,7 +888,7 @@ theorem prePoll_spec (c : Conn) (n : Nat) (sa : Option Nat) :
 
 theorem runTask_succ (fuel : Nat) (c : Conn) (pollNo : Nat) (stopAt : Option Nat) :
     runTask (fuel + 1) c pollNo stopAt =
-      match pollConn 100000 (prePoll c pollNo stopAt) with
+      match pollConn (connFuel (prePoll c pollNo stopAt)) (prePoll c pollNo stopAt) with
       | (c, .finished) => (c, "RET")
       | (c, .panic _) => (c, "PANIC")
       | (c, .pending) =>
@@ -922,8 +922,8 @@ theorem runTask_stop_quiet : ∀ (fuel : Nat) (c : Conn) (n : Nat) (sa : Option 
     intro c n sa
     rw [runTask_succ]
     obtain ⟨hps, hpq⟩ := prePoll_spec c n sa
-    have hcle := pollConn_cle 100000 (prePoll c n sa)
-    generalize pollConn 100000 (prePoll c n sa) = x at hcle
+    have hcle := pollConn_cle (connFuel (prePoll c n sa)) (prePoll c n sa)
+    generalize pollConn (connFuel (prePoll c n sa)) (prePoll c n sa) = x at hcle
     obtain ⟨c3, r⟩ := x
     simp only at hcle
     have hstop3 : c.stop = true → c3.stop = true := fun h => by rw [hcle.stop, hps, h]; rfl
